@@ -6,6 +6,7 @@ import I18n.Spec.CPyPercent
 `effect d c` replays on the interpreter's argument context what `unicode_format_arg` does for a specification that the
 parser's scanner reads as `d`; `formatArg_of_scan` is the equation, `formatArg_of_scan_none` the failure half.
 -/
+set_option linter.unusedSimpArgs false
 namespace I18n.PyFmt
 open I18n.Spec.CPyPercent
 open I18n.Generated.PyFormatTables (flagChars lengthChars allCvt)
@@ -539,6 +540,9 @@ theorem parsePrec_of_scan_none {ch : Char} {rest : List Char} (h : scanPrec ch r
 theorem length_contains (c : Char) : lengthChars.contains c = decide (c = 'h' ∨ c = 'l' ∨ c = 'L') := by
   rw [Bool.eq_iff_iff]
   simp [lengthChars]
+  constructor
+  · rintro (h | h | h) <;> simp [h]
+  · rintro (h | h | h) <;> simp [h]
 
 /-! ## the whole specification -/
 
@@ -686,9 +690,9 @@ theorem formatArg_of_scan {cs : List Char} {d : Directive} {rest : List Char} (h
 theorem formatValue_unsupported {ch : Char} (h : allCvt.contains ch = false) (p : Option Nat) (v : Val) :
     formatValue ch p v = .error .unsupportedChar := by
   simp only [allCvt, List.contains_cons, List.contains_nil, Bool.or_false, Bool.or_eq_false_iff, beq_eq_false_iff_ne, ne_eq] at h
-  obtain ⟨h1, h2, h3, h4, h5, h6, h7, h8, h9, h10, h11, h12, h13, h14, h15, h16, _⟩ := h
+  obtain ⟨h1, h2, h3, h4, h5, h6, h7, h8, h9, h10, h11, h12, h13, h14, h15, h16, h17⟩ := h
   unfold formatValue
-  simp only [h1, h2, h3, h4, h5, h6, h7, h8, h9, h10, h11, h12, h13, h14, h15, h16, or_self, if_false]
+  simp only [h1, h2, h3, h4, h5, h6, h7, h8, h9, h10, h11, h12, h13, h14, h15, h16, h17, or_self, if_false]
 
 /-- **Where the parser's scanner raises `Error`, CPython raises too, whatever the arguments.** -/
 theorem formatArg_of_scan_none {cs : List Char} (h : scanDirective cs = none) (c : Ctx) :
